@@ -173,6 +173,123 @@ def gen_case(rng, idx):
             "edges": [[a, b, s, late] for a, b, s, late in edges]}
 
 
+
+# ---- array alias models: the elements are aliased one by one after _expand_vectors (same simplify call) ----
+def gen_array_attrs(rng, n, params, used, p_start):
+    """per-element attribute values + the Modelica modification text"""
+    el = [{"min": None, "max": None, "nominal": None, "fixed": None, "start": None} for _ in range(n)]
+    mods = []
+    for k, p in (("min", 0.5), ("max", 0.5), ("nominal", 0.5), ("start", p_start)):
+        if rng.random() >= p:
+            continue
+        each = rng.random() < 0.5
+        vals = []
+        for i in range(n):
+            if each and i > 0:
+                v = vals[0]
+            elif k == "min":
+                v = dy(rng, -8, 2)
+            elif k == "max":
+                v = dy(rng, -2, 8)
+            elif k == "nominal":
+                v = F(rng.randint(1, 64), 4)
+            else:
+                v = dy(rng, -6, 6)
+                if v == 0 and rng.random() < 0.8:
+                    v = F(rng.randint(1, 24), 4)
+            vals.append(v)
+        txt = []
+        for i, v in enumerate(vals):
+            if k == "start" and rng.random() < 0.2 and (not each or i == 0):
+                pn = fresh_name(rng, used)
+                params.append((pn, v))
+                txt.append(pn)
+            else:
+                txt.append(lit(v))
+        if each:
+            mods.append("each %s = %s" % (k, txt[0]))
+        else:
+            mods.append("%s = {%s}" % (k, ", ".join(txt)))
+        for i in range(n):
+            el[i][k] = vals[i]
+    r = rng.random()
+    if r < 0.3:
+        b = rng.random() < 0.75
+        mods.append("each fixed = %s" % ("true" if b else "false"))
+        for i in range(n):
+            el[i]["fixed"] = b
+    elif r < 0.45:
+        bs = [rng.random() < 0.5 for _ in range(n)]
+        mods.append("fixed = {%s}" % ", ".join("true" if b else "false" for b in bs))
+        for i in range(n):
+            el[i]["fixed"] = bs[i]
+    rng.shuffle(mods)
+    return el, ("(%s)" % ", ".join(mods) if mods else "")
+
+
+def gen_array_case(rng, idx):
+    used, params = set(), []
+    mode = rng.random()
+    late_mode = mode >= 0.70
+    cname = fresh_name(rng, used) if late_mode else None
+    lines_decl, eqs, declared, edges = [], [], {}, []
+    for comp in range(rng.randint(1, 2)):
+        n = rng.choice([2, 2, 3])
+        kind = rng.choice(["state", "alg", "input", "input"])
+        members = []
+        for j in range(rng.randint(1, 3) + 1):
+            nm = fresh_name(rng, used)
+            k = kind if j == 0 else "alg"
+            el, mod = gen_array_attrs(rng, n, params, used, 0.3 if j == 0 else 0.65)
+            lines_decl.append("  %sReal %s[%d]%s;" % ("input " if k == "input" else "", nm, n, mod))
+            for i in range(n):
+                at = el[i]
+                declared["%s[%d]" % (nm, i + 1)] = {
+                    "kind": k, "min": fr(at["min"]), "max": fr(at["max"]), "nominal": fr(at["nominal"]),
+                    "fixed": at["fixed"], "start": fr(at["start"]), "start_via_param": False}
+            members.append(nm)
+            if j == 0:
+                continue
+            b = rng.choice(members[:-1])
+            late = late_mode and rng.random() < 0.4
+            if late or rng.random() < 0.4:          # element-wise, each element with its own sign
+                for i in range(1, n + 1):
+                    sg = -1 if rng.random() < 0.5 else 1
+                    forms = (LATE_NEG if sg < 0 else LATE_POS) if late else (NEG_FORMS if sg < 0 else POS_FORMS)
+                    eqs.append(rng.choice(forms).format(a="%s[%d]" % (nm, i), b="%s[%d]" % (b, i), c=cname))
+                    edges.append(["%s[%d]" % (nm, i), "%s[%d]" % (b, i), sg, late])
+            else:                                   # whole-array equation
+                sg = -1 if rng.random() < 0.5 else 1
+                zeros = "{{%s}}" % ", ".join(["0.0"] * n)
+                forms = (["{a} = -{b}", "-{a} = {b}", "{a} + {b} = " + zeros] if sg < 0
+                         else ["{a} = {b}", "{b} = {a}", "{a} - {b} = " + zeros])
+                eqs.append(rng.choice(forms).format(a=nm, b=b))
+                for i in range(1, n + 1):
+                    edges.append(["%s[%d]" % (nm, i), "%s[%d]" % (b, i), sg, False])
+        if kind == "state":
+            eqs.append("der(%s) = %s" % (members[0], rng.choice([members[0], "{%s}" % ", ".join(["1.0"] * n)])))
+        elif kind == "alg":
+            m = rng.choice(members)
+            for i in range(1, n + 1):
+                eqs.append("%s[%d] * %s[%d] + sin(time) = 2" % (m, i, m, i))
+    rng.shuffle(eqs)
+    rng.shuffle(lines_decl)
+    lines = ["model A%d" % idx] + ["  parameter Real %s = %s;" % (pn, lit(pv)) for pn, pv in params]
+    if cname:
+        lines.append("  constant Real %s = 0;" % cname)
+    lines += lines_decl + ["equation"] + ["  %s;" % e for e in eqs] + ["end A%d;" % idx]
+    mx = rng.random() < 0.35
+    passes = [{"expand_vectors": True, "expand_mx": mx, "detect_aliases": True}]
+    # (_expand_vectors is not re-entrant: later passes must not ask for it again)
+    if late_mode:
+        passes.append({"detect_aliases": True, "replace_constant_values": True})
+    elif mode >= 0.55:
+        passes.append({"detect_aliases": True})
+    return {"text": "\n".join(lines) + "\n", "cls": "A%d" % idx, "passes": passes,
+            "pre_options": {"expand_vectors": True, "expand_mx": mx},
+            "declared": declared, "edges": edges}
+
+
 # ---------------------------------------------------------------------------
 # independent reference of the property text (exact rationals)
 # ---------------------------------------------------------------------------
@@ -259,6 +376,12 @@ def judge(case, res):
     if "passes" not in res:
         return ("exception", "simplify/generate failed: %s" % json.dumps(res)[:300])
     decl = case["declared"]
+    # first the merge itself (the more telling message), then the precondition that the declared attributes
+    # reached the Variables the merge starts from
+    return _judge_merge(case, res, decl) or _judge_declared(case, res, decl)
+
+
+def _judge_declared(case, res, decl):
     # the Variables must carry the declared attributes before simplify (precondition of the merge)
     pre = {v["name"]: v for v in res["pre"]}
     for nm, d in decl.items():
@@ -270,6 +393,10 @@ def judge(case, res):
                 return ("declared-lost", "before simplify %s.%s = %s, declared %s" % (nm, k, o[k], w[k]))
         if bool(o["fixed"]) != w["fixed"]:
             return ("declared-lost", "before simplify %s.fixed = %s, declared %s" % (nm, o["fixed"], w["fixed"]))
+    return None
+
+
+def _judge_merge(case, res, decl):
     for k, snap in enumerate(res["passes"]):
         find = signed_classes(case, k + 1)
         by = {v["name"]: v for v in snap}
@@ -450,6 +577,24 @@ def hand_cases():
                   [{"detect_aliases": True}], {"x": d("state"), "a": d("alg", st="3/2"), "b": d("alg", st="5/2"),
                                                "c": d("alg", st="5/2")},
                   [["a", "x", -1, False], ["b", "x", -1, False], ["c", "x", 1, False]]))
+    va = ("model H\n input Real u[2](each min = 0.0);\n Real y[2](start = {3.0, 4.0}, each max = 9.0);\n"
+          " Real x[2](each nominal = 2.0);\n Real a[2](start = {1.0, 2.0}, each fixed = true, each min = -5.0);\n"
+          " Real w[2];\n Real b[2](each nominal = 7.0);\nequation\n y = u;\n der(x) = {1.0, 1.0};\n a = -x;\n"
+          " der(w) = {2.0, 2.0};\n b = w;\nend H;\n")
+    dv, ev_ = {}, []
+    for i in (1, 2):
+        dv["u[%d]" % i] = d("input", "0/1")
+        dv["y[%d]" % i] = d("alg", None, "9/1", None, None, "%d/1" % (2 + i))
+        dv["x[%d]" % i] = d("state", nom="2/1")
+        dv["a[%d]" % i] = d("alg", "-5/1", None, None, True, "%d/1" % i)
+        dv["w[%d]" % i] = d("state")
+        dv["b[%d]" % i] = d("alg", nom="7/1")
+        ev_ += [["y[%d]" % i, "u[%d]" % i, 1, False], ["a[%d]" % i, "x[%d]" % i, -1, False],
+                ["b[%d]" % i, "w[%d]" % i, 1, False]]
+    for mx in (False, True):
+        c = mk(va, [{"expand_vectors": True, "expand_mx": mx, "detect_aliases": True}], dv, ev_)
+        c["pre_options"] = {"expand_vectors": True, "expand_mx": mx}
+        out.append(c)
     return out
 
 
@@ -457,13 +602,16 @@ def run(ctx):
     core.check_props(ctx, "C16.v", THEOREMS)
     fp, _ = core.fingerprint(core.REPO + "/src/pymoca/backends/casadi/model.py", {"Model.simplify", "Variable"})
     ctx.notes["source_fingerprint"] = {"model.py:Model.simplify+Variable": fp}
-    n_rand = ctx.scaled(120, 2400)
+    n_rand = ctx.scaled(90, 2000)
+    n_arr = ctx.scaled(35, 800)
     cases = load_corpus()
     n_corpus = len(cases)
     cases += hand_cases()
     n_hand = len(cases) - n_corpus
     for i in range(n_rand):
         cases.append(gen_case(ctx.rng, i))
+    for i in range(n_arr):
+        cases.append(gen_array_case(ctx.rng, i))
     results = run_children(ctx, cases, timeout=ctx.scaled(600, 3000))
 
     # (a) oracle
@@ -484,6 +632,13 @@ def run(ctx):
             continue
         if len(c["passes"]) > 1:
             dist["two_pass_models"] += 1
+        if c.get("pre_options"):
+            dist["array_models"] = dist.get("array_models", 0) + 1
+            dist["array_element_classes"] = dist.get("array_element_classes", 0) + \
+                sum(1 for v in r["passes"][-1] if v["aliases"] and v["name"] in c["declared"])
+            dist["array_canonical_takes_alias_start"] = dist.get("array_canonical_takes_alias_start", 0) + \
+                sum(1 for v in r["passes"][-1] if v["aliases"] and v["name"] in c["declared"]
+                    and c["declared"][v["name"]]["start"] is None and v["start"] is not None)
         if "parameter Real" in c["text"]:
             dist["param_valued_attribute_models"] += 1
         decl = c["declared"]
@@ -572,7 +727,9 @@ def run(ctx):
 
     ctx.cov["evaluations"] = len(enc)
     ctx.cov["distinct_nontrivial"] = len(nontrivial)
-    ctx.cov["rule"] = ("%d generated Modelica models (1-3 alias trees each, 2-6 variables per tree, root kind state/alg/input/"
+    ctx.cov["rule"] = ("%d generated array alias models (Real arrays of size 2-3 aliased whole-array or element-wise, "
+                       "expand_vectors + detect_aliases in the same simplify call, expand_mx on/off, optional second pass) and "
+                       % n_arr) + ("%d generated Modelica models (1-3 alias trees each, 2-6 variables per tree, root kind state/alg/input/"
                        "parameter, both signs, 8 equation shapes, 1 or 2 simplify passes, second pass optionally discovering "
                        "new aliases through replace_constant_values), %d hand-written (repository test shapes, two-pass class "
                        "merge with either sign), %d corpus; one evaluation = one (pass, canonical variable with aliases) "
